@@ -15,6 +15,33 @@ TRUSTED = ("Trusted: Lean 4.33 kernel (axioms per theorem audited on every run: 
 TECH = "Lean 4 theorems over an executable model tied to the code by regenerated tables + per-run one-step correspondence; property predicate (the theorem's own definition) replayed on the implementation's transitions"
 
 CLAIMS = {
+    "C01": dict(
+        text="Theorems C01.send_ok / feed_ok / feedBytes_ok (for every character or byte string and every recogniser state, every call made has numeric arguments <= 9999), "
+             "bytes_never_wedge / chars_never_wedge / api_never_wedge (every state on the way is well-formed, for every chunking, both modes; display() has `lines` rows), "
+             "safe_of_inv (in a well-formed state with arguments in range every +, -, +=, `as i32`, `<< 5` of screen.rs stays inside u32/i32 and every subtraction is guarded). "
+             "Totality / termination of every model function is Lean's check; one character per step. On the implementation: every session of every check runs the real crate with "
+             "overflow checks and debug assertions, every call under catch_unwind, the whole batch in a child process; any panic / abort is a finding with the session as replay.",
+        technique=TECH + "; panic / abort observation in overflow-checked child processes", design="7 (C01), 12",
+        note="Partial by nature: stack exhaustion of the 32 KiB coroutine stack, allocation failure and stdout errors are not expressible in the model; they are only observed (geometries up to 140x40 and the 132-column switch)."),
+    "C02": dict(
+        text="Theorems C02.chars_chunking and bytes_chunking: feeding any partition into consecutive chunks (empty ones included, cuts inside a UTF-8 character or an escape sequence, both modes) "
+             "gives the same decoder state, recogniser state and listener calls as one feed of the concatenation; screen_chunking lifts it to the screen. That the real feed()s carry no other state "
+             "is decided on the implementation: model-free runs feed the same stream whole, byte/char-at-a-time, randomly re-chunked and at every 2-way split and compare the complete observable state, "
+             "incl. the seven captured sessions; the lockstep event comparison covers chunked feeds as well.",
+        technique=TECH + "; model-free re-chunking runs", design="7 (C02)"),
+    "C03": dict(
+        text="Theorems over the defunctionalised recogniser, on the regenerated constants: text_ground, c0_ground, esc_final / esc_unknown_final / esc_hash / esc_percent / esc_charset, introducers, "
+             "paramValue_spec (empty = 0, saturating at 9999 for digit runs of any length), csi_digit / csi_private / csi_embedded_control / csi_skip / csi_abort / csi_dollar / csi_final, "
+             "csi_complete (for every list of digit strings and every final: exactly one dispatch with the decoded parameters, back in ground), csi_unknown_final, no_text_inside. "
+             "The tie is the lockstep comparison of the listener calls of the shipping parser with the model's, chunk by chunk, over generated, garbled and enumerated strings.",
+        technique=TECH, design="7 (C03)",
+        note="`ESC ] R` and `ESC ] p` return to ground at once (as in the source; the property text does not pin these two down)."),
+    "C04": dict(
+        text="Theorems C04.draw_invisible, put_narrow_cell, put_wide_cell (lead + placeholder, lead only in the last column), put_cursor, wrap_on / wrap_position (exactly CR + LF, scrolling at the bottom margin), "
+             "wrap_off, irm_on (= ICH by the width), combine_same_row / combine_previous_row / combine_home, draw_frame (no setting changes), draw_is_fold, for every Unicode width / combining function. "
+             "propC04 compares every draw transition of the crate with the documented rendering (cells, cursor, settings).",
+        technique=TECH, design="7 (C04)",
+        note="Unicode width, combining class and NFC are parameters of the model; their values are supplied per session by the real crates. NFC itself is not verified."),
     "C05": dict(
         text="Theorem C05.C05_holds: for every well-formed model state, every one of the fourteen movement operations and every parameter "
              "(absent, 0, any n), the cursor lands on the documented closed form (C05.expected, written from the property text) and nothing but the "
@@ -52,6 +79,19 @@ CLAIMS = {
              "(select_graphic_rendition is the documented left-to-right fold with the documented parameter consumption, for every parameter list; only the cursor's rendition changes), "
              "sgr_single/sgr_256/sgr_256_out_of_range/sgr_rgb/sgr_reset, draw_uses_rendition, C08_holds. propC08 (the independent fold) is evaluated on every SGR transition of the crate.",
         technique=TECH, design="7 (C08)"),
+    "C10": dict(
+        text="Theorems C10.display_spec (each row is the documented rendering: left-to-right concatenation skipping the cell after a double-width character; exactly `lines` rows), blank_row, "
+             "display_pure, run_strip / display_positions_irrelevant (histories differing only in display() calls end in the same state). On the implementation: every display transition must leave "
+             "the complete observable state unchanged and return the model's rendering of the dumped grid, and model-free runs interpose display() at random points of generated histories.",
+        technique=TECH + "; model-free runs with interposed display()", design="7 (C10)",
+        note="In the observation model display() is a function of the state, so purity is by construction there; that the implementation's materialisation of default cells is unobservable is decided by the runs."),
+    "C11": dict(
+        text="Theorems C11.decode_one / decode_wellformed / decode_wellformed_chunked (every scalar value's UTF-8 encoding decodes to exactly that code point, for every string and every chunking), "
+             "invalid_lead, incomplete_held, maximal_subpart (one U+FFFD, the offending byte is reprocessed), dok_step (at most 3 bytes pending), eightbit, switch_to_8bit (pending tail dropped), "
+             "switch_to_utf8, other_codes_ignored, plus C02.bytes_chunking. The decoder is encoding_rs's: the model is tied to it by the lockstep runs on byte sessions and by the "
+             "String::from_utf8_lossy oracle of the metamorphic runs.",
+        technique=TECH + "; from_utf8_lossy oracle", design="7 (C11)",
+        note="Partial: the equivalence of the state machine with a declarative maximal-subpart decoder for arbitrary ill-formed input is stated step-wise (maximal_subpart), not as one theorem over whole strings."),
     "C12": dict(
         text="Theorems C12.sm_membership / rm_membership (exactly the listed numbers, private ones as 32n), sm_other / rm_other (a list without DECSCNM/DECCOLM/DECOM/DECTCEM changes "
              "only membership - for every number), sm/rm_dectcem, sm/rm_decom (homing), sm/rm_decscnm (every cell, current and default rendition, all rows dirty), "
@@ -76,10 +116,26 @@ CLAIMS = {
              "resize_wellformed (nothing stored outside the new grid), shrink_then_grow (the regained area is blank), C16_holds. propC16 is evaluated on every resize transition of the crate and "
              "every dumped buffer is checked for keys outside the grid.",
         technique=TECH, design="7 (C16)"),
+    "C17": dict(
+        text="Theorems C17.step_all (every operation except clearing either marks every row whose cells it changed and keeps earlier marks, or marks every row of the new screen - incl. draw with wrap, "
+             "scrolling and combining marks on the previous row, via the loop invariant GoodExcept), screen_wide_all_dirty (reset, DECALN, real resize, DECSCNM/DECCOLM in either spelling, scrolls), "
+             "between_clears (lifting to any history between two clears, and dirty is always a subset of the rows), C17_holds. propC17 is evaluated on every transition of the crate; the model's dirty set "
+             "is also compared exactly with the crate's.",
+        technique=TECH, design="7 (C17)"),
     "C18": dict(
         text="Theorems C18.tabs_initial/tabs_after_reset (stops at 8,16,..<columns), hts/tbc_* (set algebra, other selectors no-op), ht (nearest stop strictly right, "
              "else last column, never beyond, nothing else changes) and C18_holds for the executable predicate, for every width and stop set. propC18 is evaluated on the crate's transitions.",
         technique=TECH, design="7 (C18)"),
+    "C19": dict(
+        text="Theorems C19.osc_title (both introducers, codes 0/1/2, every payload over plain characters and ESC x pairs, all three terminators: exactly set_icon_name / set_title with the payload, "
+             "nothing drawn, back in ground), osc_terminators, osc_other_code, title_calls_frame, C19_holds. Tie: lockstep events over generated OSC strings with `;` `\\` `]` ESC pairs, C0 and non-ASCII "
+             "payloads under arbitrary chunking; propC19 on every set_title / set_icon_name transition.",
+        technique=TECH, design="7 (C19)"),
+    "C20": dict(
+        text="Theorems C20.lat1_eq / vt100_eq / ibmpc_eq / vax42_eq (all 4 x 256 regenerated entries equal the published tables, constructed independently: identity, Linux GRAF_MAP overrides, "
+             "Python's cp437 codec + classic control glyphs with the two Linux code points, pyte's eight VAX42 overrides; decide +kernel), designators, translate_eq / translate_high, so_si, "
+             "initial_charsets, define_charset_spec, utf8_ignores / eightbit_dispatches, draw_eq_spec, C20_holds. propC20 re-draws every draw transition of the crate through the Spec tables.",
+        technique=TECH, design="7 (C20)"),
 }
 
 NOT_YET = "check under construction in this round; not yet claimed"
